@@ -320,13 +320,33 @@ Definition src_ok (x : src) (t : list ev) : Prop :=
 
 Definition answer_frames (id : N) (c : dclass) : list sframe := [SData id c; SComplete id].
 
-Definition start_ok (l : list src) (t : list ev) (n : nat) (id : N) (d : doc) : Prop :=
+Definition start_okb (b : bool) (l : list src) (t : list ev) (n : nat) (id : N) (d : doc) : Prop :=
   match d with
-  | DQuery | DMutation => view n t = (1, 1, 0, 0, 0, 0, answer_frames id (CRes n))
+  | DQuery | DMutation => view n t = (1, 1, 0, 0, 0, 0, answer_frames id (if b then CErr else CRes n))
   | DInvalid => view n t = (1, 0, 0, 0, 0, 0, answer_frames id CErr)
   | DSubFail => view n t = (1, 0, 0, 1, 0, 0, answer_frames id CErr) \/ view n t = (1, 0, 0, 0, 0, 0, [])
   | DSub => (exists x, In x l /\ s_op x = n /\ s_id x = id) \/ view n t = (1, 0, 0, 0, 0, 0, [])
   end.
+(** the result class of a query is decided by whether closing had begun when it was started *)
+Definition start_ok (l : list src) (t : list ev) (n : nat) (id : N) (d : doc) : Prop :=
+  start_okb (begun_before n t) l t n id d.
+
+Lemma begun_before_app n id d t o : In (VStart n id d) t -> begun_before n (t ++ o) = begun_before n t.
+Proof.
+  induction t as [|e t IH]; [intros []|]. intros [->|H]; simpl.
+  - now rewrite Nat.eqb_refl.
+  - destruct e as [f|f ow|b|m i d'|m|m|m|m|m|z| | |]; simpl; auto. destruct (Nat.eqb m n); auto.
+Qed.
+Lemma begun_before_fresh n id d t tail :
+  (forall e, In e t -> is_start n e = false) ->
+  begun_before n (t ++ VStart n id d :: tail) = existsb is_begin t.
+Proof.
+  induction t as [|e t IH]; intro F; simpl.
+  - now rewrite Nat.eqb_refl.
+  - assert (Fe : is_start n e = false) by (apply F; now left).
+    assert (Ft : forall e', In e' t -> is_start n e' = false) by (intros e' H; apply F; now right).
+    destruct e as [f|f ow|b|m i d'|m|m|m|m|m|z| | |]; simpl in *; auto. rewrite Fe. auto.
+Qed.
 
 Record InvC (c : nat) (m : list (N * nat)) (l : list src) (t : list ev) : Prop := {
   i_ops : forall e n, In e t -> ev_op e = Some n -> n < c;
@@ -374,9 +394,10 @@ Proof.
   rewrite view_app_silent; assumption.
 Qed.
 
-Lemma start_ok_silent l t o n id d : silent n o -> start_ok l t n id d -> start_ok l (t ++ o) n id d.
+Lemma start_ok_silent l t o n id d : In (VStart n id d) t -> silent n o -> start_ok l t n id d -> start_ok l (t ++ o) n id d.
 Proof.
-  intros S H. unfold start_ok in *. rewrite view_app_silent by exact S. exact H.
+  intros M S H. unfold start_ok in *. rewrite (begun_before_app n id d t o M). unfold start_okb in *.
+  rewrite view_app_silent by exact S. exact H.
 Qed.
 
 Lemma count_mono P t o : count P t <= count P (t ++ o).
@@ -390,7 +411,7 @@ Proof.
   - intros e n He X. apply in_app_or in He as [He|He]; [eauto|]. rewrite (N e He) in X. discriminate.
   - intros x Hx. apply src_ok_silent; [now apply silent_none|auto].
   - intros n id d H. apply in_app_or in H as [H|H].
-    + apply start_ok_silent; [now apply silent_none|auto].
+    + apply start_ok_silent; [exact H|now apply silent_none|auto].
     + specialize (N _ H). discriminate.
   - intros e n He X. apply in_app_or in He as [He|He].
     + eapply Nat.lt_le_trans; [eapply I9; eauto|apply count_mono].
@@ -408,7 +429,7 @@ Qed.
 Lemma inv_block c m l t n id d tail :
   InvC c m l t -> c <= n ->
   (forall e, In e tail -> ev_op e = Some n /\ is_start n e = false) ->
-  start_ok l (VStart n id d :: tail) n id d ->
+  start_okb (existsb is_begin t) l (VStart n id d :: tail) n id d ->
   InvC (S n) m l (t ++ VStart n id d :: tail).
 Proof.
   intros I L T SO. pose proof (inv_weaken _ (S n) _ _ _ I ltac:(lia)) as I'.
@@ -421,13 +442,17 @@ Proof.
     destruct (Ops e He) as [Y|Y]; rewrite Y in X; [injection X as <-; lia|discriminate].
   - intros x Hx. apply src_ok_silent; [|auto]. eapply silent_other; [exact Ops|]. specialize (I2 x Hx). lia.
   - intros k id' d' H. apply in_app_or in H as [H|H].
-    + apply start_ok_silent; [|auto]. eapply silent_other; [exact Ops|].
+    + apply start_ok_silent; [exact H| |auto]. eapply silent_other; [exact Ops|].
       specialize (I1 _ k H eq_refl). lia.
     + assert (k = n /\ id' = id /\ d' = d) as (-> & -> & ->).
       { destruct H as [H|H]; [injection H as <- <- <-; auto|].
         destruct (T _ H) as [_ X]. simpl in X. destruct (T _ H) as [Y _]. simpl in Y. injection Y as ->.
         rewrite Nat.eqb_refl in X. discriminate. }
-      unfold start_ok in *. rewrite view_app, Fr, vplus_zero_l. exact SO.
+      unfold start_ok. rewrite begun_before_fresh.
+      * unfold start_okb in *. rewrite view_app, Fr, vplus_zero_l. exact SO.
+      * intros e He. destruct (is_start n e) eqn:Q; [|reflexivity]. exfalso.
+        destruct e as [f|f ow|b|m0 i d'|m0|m0|m0|m0|m0|z| | |]; try discriminate. simpl in Q. apply Nat.eqb_eq in Q. subst m0.
+        specialize (I1 _ n He eq_refl). lia.
   - intros e k He X. apply in_app_or in He as [He|He].
     + eapply Nat.lt_le_trans; [eapply I9; eauto|apply count_mono].
     + destruct (Ops e He) as [Y|Y]; rewrite Y in X; [injection X as <-|discriminate].
@@ -591,7 +616,7 @@ Proof.
         destruct (start_unique _ _ _ _ _ _ U St H) as [<- <-].
         left. rewrite view_app, V. unfold view, vplus, count, answer, answer_frames, owned. simpl.
         rewrite Nat.eqb_refl. reflexivity.
-      * apply start_ok_silent; [|auto]. eapply silent_other; [exact Ops|congruence].
+      * apply start_ok_silent; [exact H| |auto]. eapply silent_other; [exact Ops|congruence].
     + destruct H as [H|[H|[H|[]]]]; discriminate.
   - intros e k He X. apply in_app_or in He as [He|He].
     + eapply Nat.lt_le_trans; [eapply I9; eauto|apply count_mono].
@@ -723,6 +748,9 @@ Proof.
   - injection H as <- <-. rewrite app_nil_r. auto.
 Qed.
 
+(** has beginClosing fired (the handler's context is cancelled)? *)
+Definition begunb (s : st) : bool := match closing s with Some _ => true | None => false end.
+
 Section HandlerInv.
   Variables pc ks : bool.
 
@@ -740,10 +768,10 @@ Section HandlerInv.
   Qed.
 
   Lemma handle_start_inv s id d s' o t :
-    Inv s t -> handle_start ks s id d = (s', o) ->
+    Inv s t -> existsb is_begin t = begunb s -> handle_start ks s id d = (s', o) ->
     InvC (S (clock s)) (subs s') (srcs s') (t ++ o) /\ clock s' = clock s.
   Proof.
-    intros I H. unfold Inv in I. set (n := clock s) in *.
+    intros I Bg H. unfold Inv in I. set (n := clock s) in *.
     assert (Fresh : forall x, In x (srcs s) -> s_op x <> n).
     { intros x Hx. pose proof (i_src_lt _ _ _ _ I x Hx). lia. }
     unfold handle_start in H. fold n in H.
@@ -751,11 +779,13 @@ Section HandlerInv.
     - (* query *) injection H as <- <-. split; [|reflexivity].
       apply (inv_block n); [exact I|lia| |].
       + intros e [<-|[<-|[<-|[]]]]; auto.
-      + unfold start_ok, view, count, owned, answer_frames. simpl. rewrite Nat.eqb_refl. reflexivity.
+      + unfold start_okb. rewrite Bg. unfold begunb. destruct (closing s);
+          unfold view, count, owned, answer_frames; simpl; rewrite Nat.eqb_refl; reflexivity.
     - (* mutation *) injection H as <- <-. split; [|reflexivity].
       apply (inv_block n); [exact I|lia| |].
       + intros e [<-|[<-|[<-|[]]]]; auto.
-      + unfold start_ok, view, count, owned, answer_frames. simpl. rewrite Nat.eqb_refl. reflexivity.
+      + unfold start_okb. rewrite Bg. unfold begunb. destruct (closing s);
+          unfold view, count, owned, answer_frames; simpl; rewrite Nat.eqb_refl; reflexivity.
     - (* subscription *)
       destruct (release_ended ks s id) as [s1 o1] eqn:R.
       assert (I0 : InvC (S n) (subs s) (srcs s) (t ++ [VStart n id DSub])).
@@ -831,7 +861,7 @@ Section HandlerInv.
     - (* invalid *) injection H as <- <-. split; [|reflexivity].
       apply (inv_block n); [exact I|lia| |].
       + intros e [<-|[<-|[]]]; auto.
-      + unfold start_ok, view, count, owned, answer_frames. simpl. rewrite Nat.eqb_refl. reflexivity.
+      + unfold start_okb, view, count, owned, answer_frames. simpl. rewrite Nat.eqb_refl. reflexivity.
   Qed.
 End HandlerInv.
 
@@ -957,6 +987,86 @@ Definition CloseInv (s : st) (t : list ev) : Prop :=
 Lemma count_none P o : (forall e, In e o -> P e = false) -> count P o = 0.
 Proof. intro H. now apply count_zero_iff. Qed.
 
+(** ** closing has begun exactly when the trace says so *)
+Lemma stop_src_nb n l : existsb is_begin (snd (stop_src n l)) = false.
+Proof.
+  induction l as [|x l IH]; simpl; [reflexivity|]. destruct (Nat.eqb (s_op x) n); simpl.
+  - destruct (live x); reflexivity.
+  - destruct (stop_src n l). exact IH.
+Qed.
+Lemma emit_src_nb n l : existsb is_begin (snd (emit_src n l)) = false.
+Proof.
+  induction l as [|x l IH]; simpl; [reflexivity|]. destruct (Nat.eqb (s_op x) n); simpl.
+  - destruct (live x); reflexivity.
+  - destruct (emit_src n l). exact IH.
+Qed.
+Lemma end_src_nb n l : existsb is_begin (snd (end_src n l)) = false.
+Proof.
+  induction l as [|x l IH]; simpl; [reflexivity|]. destruct (Nat.eqb (s_op x) n); simpl.
+  - destruct (s_ended x); simpl; [reflexivity|]. destruct (live x); reflexivity.
+  - destruct (end_src n l). exact IH.
+Qed.
+Lemma stop_all_nb m : forall l, existsb is_begin (snd (stop_all m l)) = false.
+Proof.
+  induction m as [|[id n] m IH]; intro l; simpl; [reflexivity|].
+  pose proof (stop_src_nb n l) as A. destruct (stop_src n l) as [l1 o1]. pose proof (IH l1) as B.
+  destruct (stop_all m l1) as [l2 o2]. simpl in *. now rewrite existsb_app, A, B.
+Qed.
+Lemma handle_stop_nb s id : closing (fst (handle_stop s id)) = closing s /\ existsb is_begin (snd (handle_stop s id)) = false.
+Proof.
+  unfold handle_stop. destruct (lookup id (subs s)); [|auto].
+  pose proof (stop_src_nb n (srcs s)) as A. destruct (stop_src n (srcs s)). auto.
+Qed.
+Lemma release_ended_nb ks s id :
+  closing (fst (release_ended ks s id)) = closing s /\ existsb is_begin (snd (release_ended ks s id)) = false.
+Proof.
+  unfold release_ended. destruct (lookup id (subs s)); [|auto]. destruct (src_ended n (srcs s) && negb ks); [|auto].
+  pose proof (stop_src_nb n (srcs s)) as A. destruct (stop_src n (srcs s)). auto.
+Qed.
+Lemma handle_start_nb ks s id d :
+  closing (fst (handle_start ks s id d)) = closing s /\ existsb is_begin (snd (handle_start ks s id d)) = false.
+Proof.
+  unfold handle_start. destruct d; simpl; auto.
+  - destruct (release_ended_nb ks s id) as [A B]. destruct (release_ended ks s id) as [s1 o1]. simpl in *.
+    destruct (lookup id (subs s1)); simpl; rewrite ?existsb_app, B; auto.
+  - destruct (release_ended_nb ks s id) as [A B]. destruct (release_ended ks s id) as [s1 o1]. simpl in *.
+    destruct (lookup id (subs s1)); simpl; rewrite ?existsb_app, B; auto.
+Qed.
+Lemma begin_closing_nb code s :
+  begunb (fst (begin_closing code s)) = true /\ existsb is_begin (snd (begin_closing code s)) = negb (begunb s).
+Proof. unfold begin_closing, begunb. destruct (closing s) eqn:E; simpl; rewrite ?E; auto. Qed.
+
+Lemma handle_nb pc ks p s f :
+  begunb (fst (handle pc ks p s f)) = begunb s || existsb is_begin (snd (handle pc ks p s f)).
+Proof.
+  assert (BC : forall code pre, existsb is_begin pre = false ->
+            begunb (fst (begin_closing code s)) = begunb s || existsb is_begin (pre ++ snd (begin_closing code s))).
+  { intros code pre Hp. destruct (begin_closing_nb code s) as [A B]. rewrite existsb_app, Hp, A, B. simpl.
+    destruct (begunb s); reflexivity. }
+  assert (HS : forall id d, begunb (fst (handle_start ks s id d)) = begunb s || existsb is_begin (snd (handle_start ks s id d))).
+  { intros id d. destruct (handle_start_nb ks s id d) as [A B]. unfold begunb. now rewrite A, B, orb_false_r. }
+  assert (HP : forall id, begunb (fst (handle_stop s id)) = begunb s || existsb is_begin (snd (handle_stop s id))).
+  { intros id. destruct (handle_stop_nb s id) as [A B]. unfold begunb. now rewrite A, B, orb_false_r. }
+  assert (Q : forall o, existsb is_begin o = false -> begunb s = begunb s || existsb is_begin o).
+  { intros o ->. now rewrite orb_false_r. }
+  destruct p; destruct f as [|ty id pl]; simpl.
+  - (simpl; now rewrite orb_false_r).
+  - destruct ty; simpl; try ((simpl; now rewrite orb_false_r)).
+    + destruct (init_ok pl); simpl; [(simpl; now rewrite orb_false_r)|].
+      specialize (BC 1011%Z [VInit false; VSend SConnError None] eq_refl).
+      destruct (begin_closing 1011 s) as [s1 o1]. exact BC.
+    + exact (BC 1000%Z [] eq_refl).
+    + destruct (did_init s); [|(simpl; now rewrite orb_false_r)]. destruct (decode_start pl); [apply HS|(simpl; now rewrite orb_false_r)].
+    + destruct (did_init s); [apply HP|(simpl; now rewrite orb_false_r)].
+  - exact (BC 4400%Z [] eq_refl).
+  - destruct ty; simpl; try (exact (BC 4400%Z [] eq_refl)); try ((simpl; now rewrite orb_false_r)).
+    + destruct (init_ok pl); simpl; [(simpl; now rewrite orb_false_r)|].
+      specialize (BC 4403%Z [VInit false] eq_refl). destruct (begin_closing 4403 s) as [s1 o1]. exact BC.
+    + destruct (did_init s); [|(simpl; now rewrite orb_false_r)]. destruct (decode_start pl); [apply HS|exact (BC 4400%Z [] eq_refl)].
+    + destruct (did_init s); [apply HP|(simpl; now rewrite orb_false_r)].
+    + destruct pc; [exact (BC 4400%Z [] eq_refl)|(simpl; now rewrite orb_false_r)].
+Qed.
+
 Section Main2.
   Variables pc ks ke : bool.
   Variable p : proto.
@@ -1004,6 +1114,27 @@ Section Main2.
         change (VStart (clock s) id DSubFail :: ?x) with ([VStart (clock s) id DSubFail] ++ x); rewrite !count_app, ?C, ?D; reflexivity.
   Qed.
 
+  Theorem reach_begun s t : reach pc ks ke p s t -> existsb is_begin t = begunb s.
+  Proof.
+    induction 1 as [|s t l s' o R IH St]; [reflexivity|].
+    unfold step in St. destruct (react pc ks ke p s l) as [s1 o1] eqn:Re. injection St as <- <-.
+    change (begunb (tick s1)) with (begunb s1). rewrite existsb_app, IH.
+    unfold react in Re. destruct (closed s); [injection Re as <- <-; simpl; apply orb_false_r|].
+    destruct l as [f|n|n|e|].
+    - pose proof (handle_nb pc ks p s f) as A. destruct (handle pc ks p s f) as [s2 o2]. injection Re as <- <-.
+      simpl in *. symmetry. exact A.
+    - pose proof (emit_src_nb n (srcs s)) as A. destruct (emit_src n (srcs s)) as [r o2]. injection Re as <- <-.
+      simpl in *. rewrite A. apply orb_false_r.
+    - pose proof (end_src_nb n (srcs s)) as A. destruct (end_src n (srcs s)) as [r o2]. injection Re as <- <-.
+      simpl in *. rewrite A. apply orb_false_r.
+    - destruct (begin_closing_nb (end_code e) s) as [A B].
+      destruct (begin_closing (end_code e) s) as [s2 o2]. simpl in A, B. unfold handle_close in Re.
+      pose proof (stop_all_nb (subs s2) (srcs s2)) as C. destruct (stop_all (subs s2) (srcs s2)) as [l3 o3].
+      injection Re as <- <-. simpl in C. rewrite !existsb_app. simpl. rewrite existsb_app, B, C. simpl.
+      unfold begunb in *. simpl. rewrite A. destruct (closing s); reflexivity.
+    - injection Re as <- <-. destruct p; [destruct (did_init s || ke)|]; simpl; apply orb_false_r.
+  Qed.
+
   Theorem reach_inv s t : reach pc ks ke p s t -> Inv s t /\ CloseInv s t.
   Proof.
     induction 1 as [|s t l s' o R [I C] St].
@@ -1036,7 +1167,9 @@ Section Main2.
           -- rewrite <- app_assoc. apply Keep; try congruence.
              ++ apply count_none. intros e [<-|He]; [reflexivity|]. now apply F.
              ++ apply count_none. intros e [<-|He]; [reflexivity|]. now apply F.
-        * destruct (handle_start_inv ks s id d s2 o2 (t ++ [VRecv f]) I' HS) as [J Ck].
+        * assert (Bg : existsb is_begin (t ++ [VRecv f]) = begunb s).
+          { rewrite existsb_app, (reach_begun _ _ R). simpl. apply orb_false_r. }
+          destruct (handle_start_inv ks s id d s2 o2 (t ++ [VRecv f]) I' Bg HS) as [J Ck].
           destruct (handle_start_out _ _ _ _ _ HS) as (A & B & X & Y).
           split; [rewrite Ck; exact J|]. rewrite <- app_assoc. apply Keep; try congruence.
           -- change (VRecv f :: o2) with ([VRecv f] ++ o2). rewrite count_app, X. reflexivity.
@@ -1177,12 +1310,12 @@ Proof.
       apply (proj1 (forallb_forall _ _) WO) in He; discriminate.
   - (* unowned frame *) destruct f; auto; apply (proj1 (forallb_forall _ _) WO) in He; discriminate.
   - (* a start *)
-    pose proof (i_started _ _ _ _ I n id d He) as SO. unfold start_ok in SO.
+    pose proof (i_started _ _ _ _ I n id d He) as SO. unfold start_ok, start_okb in SO.
     destruct d.
-    + unfold view in SO. injection SO as -> -> -> -> _ _ Ow. unfold answered. rewrite Ow. simpl.
-      now rewrite N.eqb_refl, !Nat.eqb_refl.
-    + unfold view in SO. injection SO as -> -> -> -> _ _ Ow. unfold answered. rewrite Ow. simpl.
-      now rewrite N.eqb_refl, !Nat.eqb_refl.
+    + unfold view in SO. injection SO as -> -> -> -> _ _ Ow. unfold answered, exec_class. rewrite Ow. simpl.
+      rewrite ?N.eqb_refl, ?dclass_eqb_refl, ?Nat.eqb_refl. reflexivity.
+    + unfold view in SO. injection SO as -> -> -> -> _ _ Ow. unfold answered, exec_class. rewrite Ow. simpl.
+      rewrite ?N.eqb_refl, ?dclass_eqb_refl, ?Nat.eqb_refl. reflexivity.
     + destruct SO as [(x & Hx & Ex & Eid)|SO].
       * destruct (i_src _ _ _ _ I x Hx) as (_ & B & V). rewrite Ex, Eid in V. unfold view in V.
         injection V as -> -> -> -> Es Ee Ow. simpl. rewrite Ow, evs_is_from.
@@ -1821,10 +1954,8 @@ Section Verdict.
   Proof.
     destruct e as [f|f ow|b|n i d|n|n|n|n|n|z| | |]; simpl; auto. unfold answered.
     intro H. apply andb_true_iff in H as [H1 H2]. rewrite H1. simpl. destruct d.
-    - repeat (apply andb_true_iff in H2 as [H2 ?]). repeat (apply andb_true_iff; split); auto.
-      apply orb_true_iff. left. now apply prefixb_of_eqb.
-    - repeat (apply andb_true_iff in H2 as [H2 ?]). repeat (apply andb_true_iff; split); auto.
-      apply orb_true_iff. left. now apply prefixb_of_eqb.
+    - repeat (apply andb_true_iff in H2 as [H2 ?]). repeat (apply andb_true_iff; split); auto. now apply prefixb_of_eqb.
+    - repeat (apply andb_true_iff in H2 as [H2 ?]). repeat (apply andb_true_iff; split); auto. now apply prefixb_of_eqb.
     - repeat (apply andb_true_iff in H2 as [H2 ?]). repeat (apply andb_true_iff; split); auto.
       destruct (count (is_subscribe n) t) as [|[|k]]; auto. now apply chk_sub_frames_soften.
     - repeat (apply andb_true_iff in H2 as [H2 ?]). repeat (apply andb_true_iff; split); auto.
